@@ -138,7 +138,7 @@ def run_selection(ctx, T):
             return mism, 0, {}
         coq_chains += p
     t0 = time.time()
-    budget = ctx.budget(35.0, 500.0)
+    budget = ctx.budget(25.0, 500.0)
     outcomes = {"structural": 0, "generic": 0, "nonunique": 0}
     skipped = 0
     for (fn, req, opt), cchain in zip(cases, coq_chains):
@@ -476,8 +476,13 @@ def run_cost(ctx, T, flags):
         add("pow(kron2,2.5)@b", K2, lambda: LA.pow(K2, 2.5) @ one(K2), None)
         add("pow(kron2,2.5,alg=Auto())@b", K2, lambda: LA.pow(K2, 2.5, alg=Auto()) @ one(K2), None)
     if not flags["inv_gmres_ambiguous"]:
-        add("inv(kron2,GMRES())@b", K2, lambda: cola.inv(K2, LA.GMRES()) @ one(K2), None)
-        add("inv(block,GMRES())@b", BD, lambda: cola.inv(BD, LA.GMRES()) @ one(BD), None)
+        # explicit iterative algorithm on a structured kind: the rule must work factor by factor.  max_iters is kept
+        # small: GMRES's own Krylov workspace is max_iters^2 x (number of right-hand-side columns), and the factor-wise
+        # Kronecker product hands every factor n/n_i columns -- with the default max_iters=1000 that workspace alone
+        # (1e8 elements per factor here) exceeds the dense matrix; it is the requested algorithm's cost, not a
+        # densification of the operator, and is outside this property
+        add("inv(kron2,GMRES(max_iters=15))@b", K2, lambda: cola.inv(K2, LA.GMRES(max_iters=15)) @ one(K2), None)
+        add("inv(block,GMRES(max_iters=15))@b", BD, lambda: cola.inv(BD, LA.GMRES(max_iters=15)) @ one(BD), None)
     lcases = []
     for name, A, call, want, k in lin:
         lcases.append((name, shape_tree(A), k))
@@ -518,6 +523,8 @@ def run_cost(ctx, T, flags):
                 mism.append(dict(oracle_fail=True, what=f"entry point raised {err}", case=name, n=n))
             continue
         bound = DENSE_TEMPS * m["storage"] + m["total"] + 2 * n * k
+        if "max_iters=15" in name:
+            bound += 8 * 16 * n      # Krylov bases of the explicitly requested iterative algorithm: (max_iters+1) x n per copy
         worst = max(worst, pe / bound)
         rec = dict(case=name, n=n, peak_elems=round(pe), model_bound=bound, storage=m["storage"], seconds=round(dt, 3), selected_rule=sel)
         if len(samples) < 9 and nlin % 11 == 0:
